@@ -226,12 +226,15 @@ package s2
 //@   ensures [below] forall k int :: 0 <= k && k < s.position ==> s.index.cells[k] < target
 //@   ensures [first] s.position < len(s.index.cells) ==> s.index.cells[s.position] >= target
 
+//@ property C06 C04
 //@ func (s *ShapeIndexIterator) LocatePoint(p Point) bool
 //@   requires s != nil && vcIdx(s.index)
 //@   modifies s.position, s.id, s.cell
 //@   ensures [at] vcIterAt(s)
 //@   ensures [sound] result ==> s.position < len(s.index.cells) && s.index.cells[s.position].Contains(old(cellIDFromPoint(p)))
 //@   ensures [complete] forall k int :: 0 <= k && k < len(s.index.cells) && s.index.cells[k].Contains(old(cellIDFromPoint(p))) ==> result
+
+//@ property C06
 
 //@ func (s *ShapeIndexIterator) LocateCellID(target CellID) CellRelation
 //@   requires s != nil && vcIdx(s.index) && vcValid(target)
